@@ -71,7 +71,7 @@ use std::fs::File;
 use std::io::{BufReader, BufWriter, Seek, SeekFrom, Write};
 use std::path::{Path, PathBuf};
 use bytes::Bytes;
-use log::error;
+use log::{error, warn};
 use rpki::uri;
 use rpki::crypto::DigestAlgorithm;
 use rpki::repository::cert::{Cert, ResourceCert};
@@ -190,6 +190,15 @@ impl Store {
         };
         match StoredStatus::read(&mut file) {
             Ok(status) => Ok(Some(status)),
+            Err(err) if !err.is_fatal() => {
+                // The file is incomplete or broken, for instance because
+                // we were killed while writing it. It will be re-written by
+                // the next run, so we can just pretend it isn’t there.
+                warn!("Ignoring broken store status file {}: {}",
+                    path.display(), err
+                );
+                Ok(None)
+            }
             Err(err) => {
                 error!("Failed to read store status file {}: {}",
                     path.display(), err
